@@ -252,6 +252,7 @@ def run_shard(desc):
         o = run_drives(desc)
         o.merge(run_letterless())
         o.merge(run_neg_sep())
+        o.merge(run_dot_segments())
         return o
     raise HarnessError(k)
 
@@ -277,6 +278,26 @@ def run_neg_sep():
                     break
             if a:
                 out.nontrivial(('neg-sep', text, tuple(fnames)))
+    return out
+
+
+def run_dot_segments():
+    """Segment patterns that start with a written dot under NODOTDIR / DOTGLOB: whether a `.` or `..` segment of the name ends with `/` or
+    with `\\` makes no difference under Windows rules (relations R5 and R6)."""
+    out = Outcome()
+    out.exhaustive = True
+    dot, x = A.lit('.'), A.lits('x')
+    pps = [A.PathPat(False, ((dot, A.STAR), x), False, 1), A.PathPat(False, ((dot, A.ANY), x), False, 1), A.PathPat(False, (A.lits('a'), (dot, A.STAR), x), False, 1),
+           A.PathPat(False, ((dot, A.STAR),), False, 1), A.PathPat(False, ((A.STAR,), (dot, A.STAR)), False, 1), A.PathPat(False, ((dot, A.mkset(False, ('c', '.'))), x), False, 1),
+           A.PathPat(False, ((dot, A.STAR), (dot, A.STAR)), False, 1), A.PathPat(False, ((dot, A.STAR),), True, 1)]
+    firsts = ['..', '.', '.a', 'a', '...', '.A']
+    names = sorted({f + s_ + r for f in firsts for s_ in ('/', '\\') for r in ('x', 'X', '..', '.', '.a', '')} | set(firsts) |
+                   {'a' + s1 + f + s2 + 'x' for f in firsts[:3] for s1 in ('/', '\\') for s2 in ('/', '\\')})
+    for pp in pps:
+        text = A.render_path(pp)
+        for extra in (('NODOTDIR',), ('NODOTDIR', 'DOTGLOB'), ('DOTGLOB',), ()):
+            for j in (4, 5, 6, 0, 2):
+                check_relations('gl', pp, text, FLAGSETS[j] + extra, names, out, 'dot-segments', as_bytes=j == 5, swapped_text=None)
     return out
 
 
